@@ -335,7 +335,7 @@ let run (op : string) (args : string list) : string =
       let dirent_of a =
         match String.split_on_char ':' a with
         | "f" :: name :: _ -> { de_name = str_of_arg name; de_is_dir = false; de_files = [] }
-        | "d" :: name :: rest ->
+        | ("d" | "l") :: name :: rest ->   (* "l": a symbolic link to a directory - is_dir/exists follow links *)
             let files = match rest with f :: _ when f <> "" -> List.map str_of_arg (String.split_on_char ',' f) | _ -> [] in
             (* a leading NUL marks a file the harness creates empty: the model only knows which files exist *)
             let strip = function N0 :: r -> r | l -> l in
@@ -343,7 +343,7 @@ let run (op : string) (args : string list) : string =
         | _ -> failwith "dirent" in
       let empty_comment a =
         match String.split_on_char ':' a with
-        | "d" :: name :: f :: _ when f <> "" ->
+        | ("d" | "l") :: name :: f :: _ when f <> "" ->
             if List.exists (fun t -> str_of_arg t = N0 :: lit_str "+COMMENT") (String.split_on_char ',' f) then [str_of_arg name] else []
         | _ -> [] in
       let empties = List.concat_map empty_comment ents in
